@@ -23,9 +23,14 @@ class UnitType:
             magnitude1.value = Decimal(magnitude1.value)
             self.baseunits1.magnitude = Decimal(self.baseunits1.magnitude)
             self.baseunits2.magnitude = Decimal(self.baseunits2.magnitude)
+        error = magnitude1.error
+        if error is not None and self.conversion[0]=="_convert_linear":
+            # a linear conversion scales the absolute error like the value
+            ratio = self.baseunits1.magnitude / self.baseunits2.magnitude
+            error = error * (ratio if isinstance(error, Decimal) else float(ratio))
         return Magnitude(
             getattr(self, self.conversion[0])(magnitude1.value * self.baseunits1.magnitude, *self.conversion[1:]) / self.baseunits2.magnitude,
-            magnitude1.error
+            error
         )
         
     def add(self, unit1, unit2):
